@@ -304,7 +304,8 @@ class LogicallyPartitioned(meta.Partitioned):
 
   def to_nnx_metadata(self) -> dict[str, Any]:
     """Return a dict of metadata that can translate into an `nnx.Variable`."""
-    metadata = vars(self)
+    # a copy: vars(self) is the instance dict of this box
+    metadata = dict(vars(self))
     metadata['sharding'] = metadata.pop('names')
     metadata['sharding_rules'] = metadata.pop('rules')
     return metadata
